@@ -504,7 +504,11 @@ func (g *Gen) leafDomain(t reflect.Type, c ctx) (vals []labeled, kind string, ok
 		}
 		return vals, "duration", true
 	case t == tTime:
-		return []labeled{{"zero", conv(time.Time{}), false}, {"utc", conv(fixedUTC), false}, {"non-utc", conv(fixedJST), false}}, "time", true
+		return []labeled{{"zero", conv(time.Time{}), false}, {"utc", conv(fixedUTC), false}, {"non-utc", conv(fixedJST), false},
+			// instants the wire's 64-bit nanosecond count cannot carry (it spans 1677-2262): refused, or carried exactly - never wrapped
+			{"out-of-range:year2300", conv(time.Date(2300, 1, 1, 0, 0, 0, 0, time.UTC)), false},
+			{"out-of-range:year1600", conv(time.Date(1600, 1, 1, 0, 0, 0, 0, time.UTC)), false},
+			{"out-of-range:zero+1ns", conv(time.Time{}.Add(1)), false}}, "time", true
 	case t == tUUID:
 		return []labeled{{"nil", conv(uuid.UUID{}), false}, {"fixed", conv(fixedUUID), false}}, "uuid", true
 	case t == tRC:
@@ -522,7 +526,9 @@ func (g *Gen) leafDomain(t reflect.Type, c ctx) (vals []labeled, kind string, ok
 	}
 	switch t.Kind() {
 	case reflect.String:
-		return []labeled{{"empty", conv(""), false}, {"a", conv("a"), false}, {"non-ascii", conv(nonASCII), false}, {"300bytes", conv(str300), false}}, "string", true
+		return []labeled{{"empty", conv(""), false}, {"a", conv("a"), false}, {"non-ascii", conv(nonASCII), false}, {"300bytes", conv(str300), false},
+			// not valid UTF-8 (a protobuf string must be): refused, or carried exactly by both encodings - never rewritten
+			{"out-of-range:invalid-utf8", conv("a\xffb"), false}}, "string", true
 	case reflect.Bool:
 		return []labeled{{"false", conv(false), false}, {"true", conv(true), false}}, "bool", true
 	case reflect.Uint8:
